@@ -66,7 +66,11 @@ Proof.
 Qed.
 
 Lemma pi_lo_pos : 0 < Q2R pi_lo.
-Proof. unfold pi_lo, Q2R. cbn [Qnum Qden]. interval. Qed.
+Proof.
+  unfold pi_lo, Q2R. cbn [Qnum Qden]. apply Rmult_lt_0_compat.
+  - apply IZR_lt. reflexivity.
+  - apply Rinv_0_lt_compat. apply IZR_lt. reflexivity.
+Qed.
 
 Lemma Qle_bool_R a b : Qle_bool a b = true -> Q2R a <= Q2R b.
 Proof. intros H. apply Qle_Rle. apply Qle_bool_iff. exact H. Qed.
